@@ -52,7 +52,7 @@ class MGen:
     def prefix(self):
         r = self.rng
         self.e("new", [self.w, self.h]); self.e("dims"); self.queries()
-        self.e(r.choice(["parsebool", "parsestr"]), [self.w, self.h, r.randrange(3)], self.content("rand"))
+        self.e(r.choice(["parsebool", "parsestr"]), [self.w, self.h, r.randrange(4)], self.content("rand"))
         self.queries()
         self.e("rot180"); self.queries()
         self.e("getrow", [r.randrange(self.h), -1])
@@ -62,7 +62,7 @@ class MGen:
         self.e("clear"); self.e("set", [self.w - 1, self.h - 1]); self.queries()
         self.e("rot180"); self.queries()
         self.e("xor", [self.w, self.h], self.content("edge")); self.e("rot180"); self.queries()
-        self.e("tostring", [r.randrange(3)]); self.e("reparse", [r.randrange(3)])
+        self.e("tostring", [r.randrange(4)]); self.e("reparse", [r.randrange(4)])
         # full-width band, full-height band, whole matrix, single cells at the far corner (word-aligned fast paths)
         self.e("clear"); self.e("region", [0, r.randrange(self.h), self.w, 1]); self.queries(); self.e("getrow", [r.randrange(self.h), -1])
         self.e("clear"); self.e("region", [r.randrange(self.w), 0, 1, self.h]); self.queries()
@@ -100,9 +100,9 @@ class MGen:
         elif op == "getrow":
             self.e("getrow", [r.randrange(h), r.choice([-1, -1, 0, 1, 5, 32])])
         elif op in ("tostring", "reparse"):
-            self.e(op, [r.randrange(3)])
+            self.e(op, [r.randrange(4)])
         elif op == "parse":
-            self.e(r.choice(["parsebool", "parsestr"]), [w, h, r.randrange(3)], self.content())
+            self.e(r.choice(["parsebool", "parsestr"]), [w, h, r.randrange(4)], self.content())
         elif op == "newbad":
             self.e("new", r.choice([[0, h], [w, 0], [-1, 1]]))
         elif op == "newsq":
@@ -136,7 +136,7 @@ class AGen:
     def step(self):
         r, n = self.rng, self.n
         op = r.choice(["aset", "aflip", "aclear", "setrange", "setrangebad", "appendbit", "appendbits", "appendbitsbad",
-                       "appendarr", "axor", "axorbad", "reverse", "reverse", "setbulk", "aget", "nextset", "nextunset",
+                       "appendarr", "appendself", "axor", "axorbad", "reverse", "reverse", "setbulk", "aget", "nextset", "nextunset",
                        "isrange", "israngebad", "tobytes", "sizes", "astring"])
         if op in ("aset", "aflip", "aget"):
             if n:
@@ -162,6 +162,11 @@ class AGen:
             k = r.choice([0, 1, 31, 32, 33, r.randint(0, 70)])
             if n + k < 400:
                 self.e(op, [k], [chunks(r, k)]); self.n += k
+        elif op == "appendself":            # the array appended to itself, then one more bit (what the call left above the size shows then)
+            if 0 < 2 * n + 1 < 400:
+                self.e("appendself"); self.n = 2 * n
+                self.e("appendbit", [r.randrange(2)]); self.n += 1
+                self.e("sizes")
         elif op == "axor":
             self.e(op, [n], [chunks(r, n)])
         elif op == "axorbad":
